@@ -204,7 +204,8 @@ def setIn : Node → St → Nat → Val → St
   | .mac _ body rets _ _, σ, k, v =>
     match link body rets k with
     | .ui => (σ.set .inp k v).set .uiIn k v
-    | .gone => (σ.set .inp k v).set .uiIn k v            -- the orphaned UI node still receives
+    | .gone => σ.set .inp k v        -- nothing inside the macro receives (pinned: the orphaned UI node
+                                     -- did, but it is no longer part of the macro; see `receiverOf`)
     | .child j i => setInKid body 0 j i v (σ.set .inp k v)
 /-- `setIn` on input `i` of the `j`-th node of the list, whose first element is child `base` -/
 def setInKid : List Node → Nat → Nat → Nat → Val → St → St
@@ -251,15 +252,33 @@ def buildBody : List Node → Nat → St → St
   | n :: ns, j, σ => buildBody ns (j + 1) (σ.graft j (applyConsts n n.srcs 0 (build n)))
 end
 
-/-- behaviours that differ between the pinned code and the proposed repair -/
+/-- behaviours that differ between the pinned code and the repaired code -/
 structure Cfg where
   /-- the creator may return the same channel twice (pinned: accepted, only the LAST label is linked,
   because a channel has one `value_receiver`; repaired: `ValueError` at instantiation) -/
   dupRetRefused : Bool
+  /-- a parameter no child uses and that is not returned: its UI node is purged; pinned: the macro input
+  stays value-linked to the removed (orphaned) node, a link that cannot be restored from storage;
+  repaired: the link is dropped (`value_receiver = None`) -/
+  unusedDangling : Bool
   deriving Repr, DecidableEq
 
-def Cfg.pinned : Cfg := { dupRetRefused := false }
-def Cfg.repaired : Cfg := { dupRetRefused := true }
+def Cfg.pinned : Cfg := { dupRetRefused := false, unusedDangling := true }
+def Cfg.repaired : Cfg := { dupRetRefused := true, unusedDangling := false }
+
+/-- `macro.inputs[k].value_receiver` after construction -/
+inductive Recv
+  | ui                      -- the input of the parameter's UI node (a child)
+  | child (j i : Nat)       -- input `i` of child `j`
+  | orphan                  -- the input of a UI node that was removed from the macro
+  | none
+  deriving Repr, DecidableEq
+
+def receiverOf (cfg : Cfg) (body : List Node) (rets : List Ret) (k : Nat) : Recv :=
+  match link body rets k with
+  | .ui => .ui
+  | .child j i => .child j i
+  | .gone => if cfg.unusedDangling then .orphan else .none
 
 def hasDup : List Ret → Bool
   | [] => false
